@@ -93,6 +93,7 @@ var curScript atomic.Pointer[scriptT]
 var logSQL = os.Getenv("READFUZZ_LOGSQL") != ""
 var openRows int64 // result sets handed out and not yet closed (connection held)
 var queriesSeen int64
+var stmtsSeen int64 // statements other than GetVersionInfo's two bootstrap statements
 
 type drv struct{}
 type conn struct{}
@@ -131,6 +132,7 @@ func (*conn) QueryContext(ctx context.Context, q string, args []driver.NamedValu
 		}
 		return bootRows("", 1)
 	}
+	atomic.AddInt64(&stmtsSeen, 1)
 	if sc != nil {
 		for i := range sc.sets {
 			if strings.Contains(q, sc.sets[i].Match) {
